@@ -1,0 +1,6 @@
+//go:build verif && linux
+
+package ztp
+
+// ParseVendorOptionsForVerif exposes parseVendorOptions (C09 of /verif).  Add-only, -tags verif only.
+func ParseVendorOptionsForVerif(data []byte) string { return parseVendorOptions(data) }
